@@ -22,7 +22,7 @@ import (
 // only while nobody holds it), so goroutines can be parked inside the critical section as well.
 
 type SchedActor struct {
-	Kind  string `json:"kind"`            // gossip | head
+	Kind  string `json:"kind"`            // gossip | head | grow (the network produces one more header)
 	K     int    `json:"k,omitempty"`     // gossip: the header at prefill+k
 	Adv   string `json:"adv,omitempty"`   // "" (the chain's header) | twin (same lineage and link, other content) | forged
 	After int    `json:"after,omitempty"` // 1-based index of the actor that must have finished first; 0 = starts at once
@@ -46,20 +46,23 @@ func genSyncSched(t *rapid.T) SyncSchedScenario {
 	n := rapid.IntRange(2, 5).Draw(t, "nactors")
 	var canon []int // indices of canonical gossip actors
 	for i := 0; i < n; i++ {
-		a := SchedActor{Kind: "gossip", K: rapid.IntRange(1, s.Net).Draw(t, "k")}
-		switch rapid.IntRange(0, 6).Draw(t, "akind") {
+		a := SchedActor{Kind: "gossip", K: rapid.IntRange(0, s.Net).Draw(t, "k")} // 0 = the network's head at that moment
+		switch rapid.IntRange(0, 7).Draw(t, "akind") {
 		case 0:
 			a = SchedActor{Kind: "head"}
+		case 7:
+			a = SchedActor{Kind: "grow"}
 		case 1, 2:
 			if len(canon) > 0 {
 				// an equivocating twin of a height that is known by then: after a delivery of the chain's header
 				// at that height or above
 				j := rapid.SampledFrom(canon).Draw(t, "twinafter")
 				a.Adv, a.After = "twin", j+1
-				a.K = rapid.IntRange(1, s.Actors[j].K).Draw(t, "twink")
+				a.K = rapid.IntRange(1, max(1, s.Actors[j].K)).Draw(t, "twink")
 			}
 		case 3:
 			a.Adv = "forged"
+			a.K = max(a.K, 1)
 		}
 		if a.Kind == "gossip" && a.Adv == "" {
 			if i == 0 {
@@ -79,10 +82,13 @@ func genSyncSched(t *rapid.T) SyncSchedScenario {
 }
 
 type schedActorObs struct {
-	Err    string `json:"err,omitempty"`
-	Head   uint64 `json:"head,omitempty"`
-	Done   bool   `json:"done"`
-	Refuse bool   `json:"must_refuse,omitempty"`
+	Err  string `json:"err,omitempty"`
+	Head uint64 `json:"head,omitempty"`
+	Done bool   `json:"done"`
+	// the network's head when the actor started / finished
+	TipBefore uint64 `json:"tip_before,omitempty"`
+	TipAfter  uint64 `json:"tip_after,omitempty"`
+	Refuse    bool   `json:"must_refuse,omitempty"`
 }
 
 func runSyncSched(t *testing.T, s SyncSchedScenario) (res Result) {
@@ -93,7 +99,13 @@ func runSyncSched(t *testing.T, s SyncSchedScenario) (res Result) {
 		if s.Span > 0 {
 			spans = []uint64{uint64(s.Span)}
 		}
-		chain := newSyncChain("c03s", int(tip)+5, prefill, delta, spans)
+		grows := 0
+		for _, a := range s.Actors {
+			if a.Kind == "grow" {
+				grows++
+			}
+		}
+		chain := newSyncChain("c03s", int(tip)+grows+5, prefill, delta, spans)
 		e, err := newSyncEnv(chain, prefill, delta, nil,
 			hsync.WithBlockTime(delta), hsync.WithTrustingPeriod(10_000*time.Hour),
 			hsync.WithSyncFromHeight(1), hsync.WithPruningWindow(10_000*time.Hour))
@@ -119,7 +131,7 @@ func runSyncSched(t *testing.T, s SyncSchedScenario) (res Result) {
 		}
 		// the network moves on; the stored head is not recent any more
 		e.getter.SetTip(tip)
-		time.Sleep(time.Duration(s.Net)*delta + 5*time.Second)
+		time.Sleep(time.Duration(s.Net+grows)*delta + 5*time.Second)
 
 		sc := sched.New()
 		sc.Canonical = s.Canonical
@@ -168,9 +180,15 @@ func runSyncSched(t *testing.T, s SyncSchedScenario) (res Result) {
 				if a.Kind == "head" {
 					role = "h"
 				}
+				if a.Kind == "grow" {
+					role = "w" // the world
+				}
 				sc.Yield(fmt.Sprintf("%s%d:start", role, i))
 				var o schedActorObs
-				if a.Kind == "head" {
+				o.TipBefore = e.getter.Tip()
+				if a.Kind == "grow" {
+					e.getter.SetTip(o.TipBefore + 1)
+				} else if a.Kind == "head" {
 					h, err := e.syncer.Head(ctx)
 					if err != nil {
 						o.Err = err.Error()
@@ -181,6 +199,10 @@ func runSyncSched(t *testing.T, s SyncSchedScenario) (res Result) {
 						}
 					}
 				} else {
+					if a.Adv == "" && a.K == 0 {
+						hdr = chain.At(o.TipBefore) // whatever the network's head is right now
+					}
+					o.Head = hdr.H
 					gctx, gcancel := context.WithTimeout(ctx, time.Hour)
 					err := e.sub.deliver(gctx, hdr)
 					gcancel()
@@ -189,6 +211,7 @@ func runSyncSched(t *testing.T, s SyncSchedScenario) (res Result) {
 					}
 				}
 				o.Done = true
+				o.TipAfter = e.getter.Tip()
 				mu.Lock()
 				obs[i] = o
 				mu.Unlock()
@@ -250,8 +273,8 @@ func runSyncSched(t *testing.T, s SyncSchedScenario) (res Result) {
 				// the clock stands still during the schedule and nothing the Syncer holds is recent, so every
 				// caller depends on the (possibly shared) head request: it must come back with the peers' head,
 				// whoever of the concurrent callers and handlers got to apply it first
-				if o.Head != tip {
-					res.failf("%s: Syncer.Head returned height %d, the trusted peers are at %d", tag, o.Head, tip)
+				if o.Head < o.TipBefore || o.Head > e.getter.Tip() {
+					res.failf("%s: Syncer.Head returned height %d, the trusted peers were at %d when it was called and are at %d now", tag, o.Head, o.TipBefore, e.getter.Tip())
 					return
 				}
 			case a.Adv == "forged":
@@ -262,10 +285,10 @@ func runSyncSched(t *testing.T, s SyncSchedScenario) (res Result) {
 			case a.Adv == "twin":
 				// the chain's header of that height (or above) had been delivered before this actor started;
 				// if the Syncer took it (no error, or "known"), the height is taken and the twin must be refused
-				if j := a.After - 1; j >= 0 && j < i && s.Actors[j].Kind == "gossip" && s.Actors[j].Adv == "" && s.Actors[j].K >= a.K {
+				if j := a.After - 1; j >= 0 && j < i && s.Actors[j].Kind == "gossip" && s.Actors[j].Adv == "" && obs[j].Head >= o.Head {
 					if o.Err == "" {
 						res.failf("%s: an equivocating twin of height %d was accepted although the chain's header up to %d had been taken before (%q)",
-							tag, s.Prefill+a.K, s.Prefill+s.Actors[j].K, obs[j].Err)
+							tag, o.Head, obs[j].Head, obs[j].Err)
 						return
 					}
 				}
@@ -287,7 +310,7 @@ func runSyncSched(t *testing.T, s SyncSchedScenario) (res Result) {
 			case a.Kind == "head" && obs[i].Err == "":
 				newest = max(newest, obs[i].Head)
 			case a.Kind == "gossip" && a.Adv == "" && obs[i].Err == "":
-				newest = max(newest, prefill+uint64(min(max(a.K, 1), s.Net)))
+				newest = max(newest, obs[i].Head)
 			}
 		}
 		getterErr := false
@@ -303,7 +326,7 @@ func runSyncSched(t *testing.T, s SyncSchedScenario) (res Result) {
 		// heal: the getter is fine again and a new head is learned (a sync aborted by a getter error is only
 		// resumed by the next learned head); the store must reach it
 		e.getter.set(func() { e.getter.RangeErrs = 0 })
-		tip++
+		tip = e.getter.Tip() + 1
 		e.getter.SetTip(tip)
 		time.Sleep(delta)
 		gctx, gcancel := context.WithTimeout(ctx, time.Hour)
@@ -379,4 +402,33 @@ func TestC07Sched(t *testing.T) {
 		}
 		return SyncScenario{Sched: &sc}
 	}, runC07)
+}
+
+// TestC07Enum enumerates the honest configurations (1, 2, 3, 5, 6 of c03EnumConfigs) for C07.
+func TestC07Enum(t *testing.T) {
+	var cfgs []SyncScenario
+	for i := range c03EnumConfigs {
+		c := c03EnumConfigs[i]
+		honest := true
+		for _, a := range c.Actors {
+			if a.Adv != "" {
+				honest = false
+			}
+		}
+		if honest {
+			cfgs = append(cfgs, SyncScenario{Sched: &c})
+		}
+	}
+	// quick: all but the two big ones (two concurrent gossips; two Head() callers with bifurcation)
+	quick := map[int]bool{}
+	for i, c := range cfgs {
+		if !(len(c.Sched.Actors) == 2 && c.Sched.Actors[0].Kind == c.Sched.Actors[1].Kind && c.Sched.Actors[1].After == 0) {
+			quick[i] = true
+		}
+	}
+	runEnum(t, "C07", cfgs, func(s SyncScenario, tape []int) SyncScenario {
+		c := *s.Sched
+		c.Tape, c.Canonical = tape, true
+		return SyncScenario{Sched: &c}
+	}, runC07, quick)
 }
